@@ -501,6 +501,31 @@ def case_pipeline(case):
                 fm = ko(pos, only_mean=True, **kw)
                 fm = fm[0] if isinstance(fm, tuple) else fm
                 r.close("only_mean field == get_mean() + trend", np.asarray(fm, dtype=float), expm + np.asarray(trend_f(*pts), dtype=float), rtol=1e-9, atol=1e-12, unbiased=unb)
+    # history on a used kriging object: the normalizer is changed in place / replaced without a new
+    # set_condition - the conditions are normalised with the present normalizer at every call, so the
+    # conditioning values are still reproduced through the pipeline
+    if kind == "Krige" and not callable(mean) and mesh == "unstructured":
+        cp_, cv_ = np.array(obj.cond_pos, dtype=float), np.array(obj.cond_val, dtype=float)
+        dt = cv_ - np.asarray(trend_f(*cp_), dtype=float)
+        steps = []
+        if ncls not in (None, "LogNormal"):
+            steps.append(("parameter changed in place", lambda k: setattr(k.normalizer, "lmbda", lam + 0.3)))
+        steps.append(("normalizer replaced", lambda k: setattr(k, "normalizer", gn.YeoJohnson(lmbda=0.7))))
+        if np.all(dt > 0.05):
+            steps.append(("normalizer replaced", lambda k: setattr(k, "normalizer", gn.BoxCox(lmbda=0.4))))
+            steps.append(("normalizer replaced", lambda k: setattr(k, "normalizer", gn.LogNormal)))
+        steps.append(("normalizer removed", lambda k: setattr(k, "normalizer", None)))
+        try:
+            kh = gs.Krige(obj.model, cp_, cv_, mean=mean, normalizer=None if ncls is None else make(ncls, lam, 0.25), trend=trend, unbiased=False)
+            kh(pos, **kw)
+        except Exception:  # noqa (conditioning values outside the domain of the normalizer)
+            kh = None
+        for i, (what, op) in enumerate(steps if kh is not None else []):
+            op(kh)
+            fh = kh(cp_, mesh_type="unstructured")
+            fh = np.asarray(fh[0] if isinstance(fh, tuple) else fh, dtype=float)
+            if np.all(np.isfinite(fh)):
+                r.close("used kriging object, " + what + " (no set_condition): field at the conditioning points == conditioning values", fh, cv_, rtol=1e-7, atol=1e-8, step=i)
     return r.done(outcome=[round(float(v), 8) for v in np.ravel(out)[:3]])
 
 
